@@ -229,6 +229,13 @@ func evalDoc(c *rt.Case) (bool, string, string, error) {
 		if c.X["probes"] == "circles" {
 			extra = circleProbes
 		}
+		if t, ok := strings.CutPrefix(c.X["probes"], "track:"); ok {
+			tr, ok := parseTrack(t)
+			if !ok {
+				return false, "", "", fmt.Errorf("bad track")
+			}
+			extra = tr.probes()
+		}
 		if c.X["probes"] == "bbox" {
 			extra = bboxProbes
 		}
